@@ -40,12 +40,12 @@ theorem ReadSpec.of_ext {a b : St} {r : St × Out} (h1 : Ext a b) (h2 : ReadSpec
     all_goals first | exact h1.trans h2 | exact Lost.of_ext h1 h2
 
 theorem takeBuf_spec (s : St) (n : Nat) : ReadSpec s (takeBuf s n) := by
-  refine ⟨⟨rfl, rfl, rfl, rfl⟩, rfl, ?_⟩
+  refine ⟨⟨rfl, rfl, rfl, rfl, rfl⟩, rfl, ?_⟩
   show s.buf.take n ++ (s.buf.drop n ++ devBytes s.dev) = s.buf ++ devBytes s.dev
   rw [← List.append_assoc, List.take_append_drop]
 
 theorem takeAll_spec (s : St) : ReadSpec s (takeAll s) := by
-  refine ⟨⟨rfl, rfl, rfl, rfl⟩, rfl, ?_⟩
+  refine ⟨⟨rfl, rfl, rfl, rfl, rfl⟩, rfl, ?_⟩
   show s.buf ++ ([] ++ devBytes s.dev) = s.buf ++ devBytes s.dev
   rfl
 
@@ -57,7 +57,7 @@ theorem ext_quiet {s0 s1 : St} (hs : Same s0 s1) (hb : s1.buf = s0.buf) (hl : s1
 
 theorem ext_more {s0 s1 : St} {b : Bytes} (hs : Same s0 s1) (hb : s1.buf = s0.buf) (hl : s1.log = s0.log)
     (hd : b ++ devBytes s1.dev = devBytes s0.dev) : Ext s0 { s1 with buf := s1.buf ++ b } :=
-  ⟨⟨hs.kind, hs.minP, hs.maxP, hs.isOpen⟩, hl, b, by simp [hb], hd⟩
+  ⟨⟨hs.kind, hs.minP, hs.maxP, hs.isOpen, hs.wlog⟩, hl, b, by simp [hb], hd⟩
 
 theorem lost_one {s0 s1 : St} {l : Bytes} (hs : Same s0 s1) (hb : s1.buf = s0.buf)
     (hl : s1.log = s0.log ++ [(Tag.lost, l)]) (hd : l ++ devBytes s1.dev = devBytes s0.dev) : Lost s0 s1 :=
@@ -193,21 +193,21 @@ theorem serRead_spec (s : St) (size : Nat) :
     | none => devBytes (serRead s size).1.dev = devBytes s.dev := by
   unfold serRead
   split
-  · exact ⟨⟨rfl, rfl, rfl, rfl⟩, rfl, rfl, rfl, by simp⟩
+  · exact ⟨⟨rfl, rfl, rfl, rfl, rfl⟩, rfl, rfl, rfl, by simp⟩
   · have h1 := popDev_bytes false size s.dev
     have h2 := popDev_stream_le size s.dev
     have h3 := popDev_stream_no_oserr size s.dev
     generalize popDev false size s.dev = r at *
     obtain ⟨e, rx, d'⟩ := r
     cases rx with
-    | data b => exact ⟨⟨rfl, rfl, rfl, rfl⟩, rfl, rfl, by simpa [rxBytes] using h1, h2 b rfl⟩
-    | timeout => exact ⟨⟨rfl, rfl, rfl, rfl⟩, rfl, rfl, by simpa [rxBytes] using h1, by simp⟩
-    | eof => exact ⟨⟨rfl, rfl, rfl, rfl⟩, rfl, rfl, by simpa [rxBytes] using h1, by simp⟩
+    | data b => exact ⟨⟨rfl, rfl, rfl, rfl, rfl⟩, rfl, rfl, by simpa [rxBytes] using h1, h2 b rfl⟩
+    | timeout => exact ⟨⟨rfl, rfl, rfl, rfl, rfl⟩, rfl, rfl, by simpa [rxBytes] using h1, by simp⟩
+    | eof => exact ⟨⟨rfl, rfl, rfl, rfl, rfl⟩, rfl, rfl, by simpa [rxBytes] using h1, by simp⟩
     | oserr l => exact absurd rfl (h3 l)
-    | exhausted => exact ⟨⟨rfl, rfl, rfl, rfl⟩, rfl, rfl, by simpa [rxBytes] using h1⟩
+    | exhausted => exact ⟨⟨rfl, rfl, rfl, rfl, rfl⟩, rfl, rfl, by simpa [rxBytes] using h1⟩
 
 theorem inWaiting_ext (s : St) : Ext s (inWaiting s).1 :=
-  ⟨⟨rfl, rfl, rfl, rfl⟩, rfl, [], by simp [inWaiting], by simp [inWaiting]⟩
+  ⟨⟨rfl, rfl, rfl, rfl, rfl⟩, rfl, [], by simp [inWaiting], by simp [inWaiting]⟩
 
 theorem serReadLoop_ext (n : Nat) (timeout : Option Int) (tstart : Nat) :
     ∀ (fuel : Nat) (s : St), Ext s (serReadLoop n timeout tstart fuel s).1 := by
